@@ -20,5 +20,6 @@ Definition run_c18 (l : list Z) : list Z :=
       [b2z (is_identity t); b2z (is_translate t); b2z (is_scale_translate t); b2z (has_skew t); b2z (ts_is_finite t)]
   | 6 :: _ => [-9]
   | 7 :: _ => [-9]
+  | 8 :: _ => [-9]
   | _ => [-3]
   end.
